@@ -42,6 +42,70 @@ def run_D8(rep, g, rule='D8-guard'):
         nm = names[v]
         if 'next' in calls and 'take' not in calls:
             rep.ok(rule, 'RangeIter::next|' + nm, 'delegates to RngListIter::next', fn.loc(), why='forwards a guarded iterator')
+        elif _stored_ranges_guarded(g, nm):
+            rep.ok(rule, 'RangeIter::next|' + nm, 'yields the stored range; every construction of RangeIterInner::%s stores None or an Option::filter result whose '
+                   'predicate is `begin < min_tombstone(address_size) && begin < end`' % nm, fn.loc(), why='the guard is applied where the range is stored')
         else:
             rep.bad(rule, 'RangeIter::next|' + nm, 'the %s arm yields a stored range (%s) without the emptiness / tombstone guard that list ranges pass'
                     % (nm, calls), fn.loc())
+
+
+def _guard_closure(g, path):
+    """the closure returns true only on the path where `begin < min_tombstone(..)` held, and then returns `begin < end`"""
+    c = g.fns.get(path)
+    if c is None:
+        return False
+    ev = Eval(c)
+    good = 0
+    for b in sorted(c.reach):
+        for st in c.stmts(b):
+            if st[0] != 'a' or st[1] != [0]:
+                continue
+            rv = st[2]
+            if rv[0] == 'use' and rv[1][0] == 'k' and rv[1][2].get('v') in (0, False):
+                continue                            # `false`
+            txt = c.fmt_rv(rv, 6)
+            if rv[0] == 'bin' and rv[1] == 'Lt' and 'begin' in txt.split(' Lt ')[0] and 'end' in txt.split(' Lt ')[-1]:
+                facts = [(o, ev.canon(a_), ev.canon(b_)) for (o, a_, b_, gb) in ev.cond_facts(b)]
+                if any(o == 'Lt' and 'begin' in x and 'min_tombstone' in y for (o, x, y) in facts):
+                    good += 1
+                    continue
+            return False                            # any other way to produce the result
+    return good >= 1
+
+
+def _stored_ranges_guarded(g, variant):
+    n = 0
+    for p, fn in g.fns.items():
+        if '::tests::' in p:
+            continue
+        for b in sorted(fn.reach):
+            for st in fn.stmts(b):
+                if st[0] != 'a' or st[2][0] != 'agg' or st[2][1][0] != 'adt':
+                    continue
+                if g.strs[st[2][1][1]] != 'read::dwarf::RangeIterInner' or st[2][1][2] != variant:
+                    continue
+                n += 1
+                op = st[2][2][0]
+                if op[0] == 'k':
+                    continue                        # a constant None
+                sd = fn.single_def(op[1][0]) if len(op[1]) == 1 else None
+                for _ in range(4):
+                    if sd is not None and sd[1] != 'term' and sd[2][0] == 'use' and sd[2][1][0] in ('c', 'm') and len(sd[2][1][1]) == 1:
+                        sd = fn.single_def(sd[2][1][1][0])
+                if sd is None:
+                    return False
+                if sd[1] != 'term':
+                    rv = sd[2]
+                    if rv[0] == 'agg' and rv[1][0] == 'adt' and rv[1][2] == 'None':
+                        continue
+                    return False
+                t = sd[2]
+                if t['f'].get('name') != 'filter' or len(t['a']) < 2 or t['a'][1][0] not in ('c', 'm'):
+                    return False
+                cd = fn.single_def(t['a'][1][1][0])
+                if cd is None or cd[1] == 'term' or cd[2][0] != 'agg' or cd[2][1][0] != 'closure':
+                    return False
+                if not _guard_closure(g, cd[2][1][1]):
+                    return False
+    return n > 0
